@@ -30,14 +30,18 @@ ID = "C11"
 LEAN_TARGETS = ["RV.C11.Props", "RV.C11.Audit"]
 AUDIT = "RV/C11/Audit.lean"
 DRIVER = "drv_c11"
-CASES = {"quick": 1400, "thorough": 36000, "search": 12000}
-RULE = ("random path expressions (depth ≤ 4 quick / ≤ 6 thorough; iri, ^, /, |, ?, *, +, negated sets with forward and "
-        "inverse members) over random graphs of 2-10 triples on 4-6 nodes (falsy literals, literal subjects, self-loops, "
-        "2- and 3-cycles), four bindings of the ends per case (given terms may be falsy or absent from the graph), driven "
-        "through Graph.triples / subjects / objects / subject_objects / __contains__, Dataset (default_union on / off, named "
-        "graph), ReadOnlyGraphAggregate over a split of the graph, and SPARQL SELECT with constants or VALUES; thorough "
-        "adds an exhaustive slice (all graphs over 3 nodes x 2 predicates, by index) x fixed path shapes.  non-trivial = the "
-        "path has an operator and some binding with a given end has a non-empty answer; distinct = distinct (triples, path, ends)")
+EX_BLOCK = 128
+EX_BLOCKS = (1 << 18) // EX_BLOCK
+CASES = {"quick": 1600, "thorough": EX_BLOCKS + 16000, "search": 12000}
+RULE = ("random path expressions (depth <= 4 quick / <= 6 thorough; iri, ^, /, |, ?, *, +, negated sets with forward and "
+        "inverse members; a family of all-nullable sequences) over random graphs of 2-10 triples on 4-6 nodes (falsy "
+        "literals, literal subjects, self-loops, 2- and 3-cycles), four bindings of the ends per case (given terms may be "
+        "falsy or absent from the graph), driven through Graph.triples / subjects / objects / subject_objects / "
+        "__contains__, Dataset (default_union on / off, named graph), ReadOnlyGraphAggregate over a split of the graph, "
+        "and SPARQL SELECT with constants or VALUES; the thorough tier first sweeps ALL 2^18 graphs over 3 nodes x 2 "
+        "predicates (blocks of 128) against 24 fixed path shapes with the oracle (one shape per graph also against the "
+        "model).  non-trivial = the path has an operator and some binding with a given end has a non-empty answer; "
+        "distinct = distinct (triples, path, ends)")
 ASSUMPTIONS = ["a Graph / Dataset view is the set of its triples (C01/C02); named graphs used here are non-empty (the "
                "`context or c` fallback for empty graphs belongs to C02)",
                "VALUES-bound ends are only compared when the term occurs in the graph (for an absent term the algebra's "
@@ -54,10 +58,10 @@ FALSY = [4, 5, 6, 13]
 NO_SPARQL_TERM = {7}          # a blank node in a query is a variable
 GNAME = URIRef(E + "g1")
 
-ROUTES = ["triples", "so", "ds_union", "ds_default", "ds_named", "agg", "sparql_const", "sparql_values"]
-FULL, DEFAULT, NAMED = 0, 1, 2
-ROUTE_GRAPH = {"triples": FULL, "so": FULL, "ds_union": FULL, "ds_default": DEFAULT, "ds_named": NAMED, "agg": FULL,
-               "sparql_const": FULL, "sparql_values": FULL}
+ROUTES = ["triples", "so", "ds_union", "ds_default", "ds_named", "agg", "sparql_const", "sparql_values", "sparql_tree"]
+FULL, DEFAULT, NAMED, AGG = 0, 1, 2, 3
+ROUTE_GRAPH = {"triples": FULL, "so": FULL, "ds_union": FULL, "ds_default": DEFAULT, "ds_named": NAMED, "agg": AGG,
+               "sparql_const": FULL, "sparql_values": FULL, "sparql_tree": FULL}
 
 
 # ------------------------------------------------------------------ paths
@@ -210,6 +214,45 @@ def path_tokens(ast):
     return ["n", str(len(ast[1])), str(len(ast[2]))] + [str(i) for i in ast[1]] + [str(i) for i in ast[2]]
 
 
+def syn_tokens(node):
+    """rdflib's parse tree of a path (before translatePath) in the driver's prefix form:
+       i N | A k x… (PathAlternative) | S k x… (PathSequence) | E mod|- x (PathElt) | V x (PathEltOrInverse)
+       | N F B f… b… (PathNegatedPropertySet with iri / InversePath members)"""
+    if isinstance(node, URIRef):
+        return ["i", str(REV[node])]
+    name = getattr(node, "name", None)
+    if name in ("PathAlternative", "PathSequence"):
+        out = ["A" if name == "PathAlternative" else "S", str(len(node.part))]
+        for x in node.part:
+            out += syn_tokens(x)
+        return out
+    if name == "PathElt":
+        part = node.part
+        if isinstance(part, list):
+            (part,) = part
+        return ["E", str(node.mod) if node.mod else "-"] + syn_tokens(part)
+    if name == "PathEltOrInverse":
+        part = node.part
+        if isinstance(part, list):
+            (part,) = part
+        return ["V"] + syn_tokens(part)
+    if name == "PathNegatedPropertySet":
+        fw = [REV[m] for m in (node.part or []) if isinstance(m, URIRef)]
+        bw = [REV[m.part] for m in (node.part or []) if getattr(m, "name", None) == "InversePath"]
+        if len(fw) + len(bw) != len(node.part or []):
+            raise ValueError("unknown member in negated property set")
+        return ["N", str(len(fw)), str(len(bw))] + [str(i) for i in fw] + [str(i) for i in bw]
+    raise ValueError("unknown path node %r" % (node,))
+
+
+def parser_tree_tokens(ast, style):
+    """print the expression as SPARQL, run rdflib's parser, return the tree of the path it produced"""
+    from rdflib.plugins.sparql.parser import parseQuery
+    q = parseQuery("SELECT * WHERE { ?s %s ?o }" % sparql_text(ast, style))
+    triples = q[1]["where"]["part"][0]["triples"][0]
+    return syn_tokens(triples[1])
+
+
 # ------------------------------------------------------------------ the property's own oracle
 
 
@@ -257,6 +300,58 @@ def rel(ast, T, U):
 def expected(ast, T, s, o):
     U = {x for t in T for x in (t[0], t[2])} | {x for x in (s, o) if x is not None}
     return {(x, y) for x, y in rel(ast, T, U) if (s is None or x == s) and (o is None or y == o)}
+
+
+class TooBig(Exception):
+    pass
+
+
+def bag(ast, T, U, limit):
+    """number of derivations per pair (rdflib's generators repeat a pair once per derivation under `/` and `|`;
+    closures are duplicate-free).  Only used by the generator to keep cases cheap: a path whose answer, or an
+    intermediate answer, has more than `limit` derivations is not generated (evaluation cost is exponential in
+    the nesting of `/` and `|` over dense graphs — a cost, not a property, question)."""
+    k = ast[0]
+    if k in "in":
+        return {pr: 1 for pr in rel(ast, T, U)}
+    if k == "m":
+        inner = bag(ast[2], T, U, limit)
+        if sum(inner.values()) * max(1, len(U)) > 4 * limit:   # the traversal re-evaluates the inner path per node
+            raise TooBig()
+        return {pr: 1 for pr in rel(ast, T, U)}
+    if k == "v":
+        return {(o, s): c for (s, o), c in bag(ast[1], T, U, limit).items()}
+    if k == "a":
+        r = {}
+        for x in ast[1]:
+            for pr, c in bag(x, T, U, limit).items():
+                r[pr] = r.get(pr, 0) + c
+        if sum(r.values()) > limit:
+            raise TooBig()
+        return r
+    r = bag(ast[1][0], T, U, limit)
+    for x in ast[1][1:]:
+        r2 = bag(x, T, U, limit)
+        by = {}
+        for (c_, d), n in r2.items():
+            by.setdefault(c_, []).append((d, n))
+        out = {}
+        for (a, b), n in r.items():
+            for d, n2 in by.get(b, ()):
+                out[(a, d)] = out.get((a, d), 0) + n * n2
+        if sum(out.values()) > limit:
+            raise TooBig()
+        r = out
+    return r
+
+
+def cheap(ast, T, limit=1500):
+    U = {x for t in T for x in (t[0], t[2])}
+    try:
+        bag(ast, [tuple(t[:3]) for t in T], U, limit)
+        return True
+    except TooBig:
+        return False
 
 
 # ------------------------------------------------------------------ generator
@@ -359,32 +454,46 @@ EX_PATHS = [
     ["s", [_P, ["v", _P]]], ["m", "*", ["s", [_P, ["v", _Q]]]], ["v", ["s", [_P, ["m", "+", _Q]]]],
     ["m", "?", ["s", [["m", "*", _P], _Q]]], ["a", [["s", [_P, _Q]], ["m", "*", ["v", _P]]]], ["n", [], []],
 ]
-EX_STRIDE = 7  # cases per path shape sweep: graph index advances by a stride coprime to 2**18
+EX_ENDS = EX_NODES + [9]   # 9 does not occur in any of these graphs
 
 
-def gen_exhaustive(rng, j):
-    gi = (j * 104729 + 12345) % (1 << 18)
-    T = [[*EX_TRIPLES[b], (b + gi) % 3] for b in range(18) if gi >> b & 1]
-    path = EX_PATHS[j % len(EX_PATHS)]
-    s, o = rng.choice(EX_NODES + [9]), rng.choice(EX_NODES + [6])
-    return {"triples": T, "path": path, "ends": [[None, None], [s, None], [None, o], [s, o], [s, s]],
-            "routes": ["triples", "agg", "ds_union"] + (["sparql_const"] if j % 5 == 0 else []), "style": j % 2}
+def ex_graph(gi):
+    return [EX_TRIPLES[b] for b in range(18) if gi >> b & 1]
+
+
+def ex_bindings(gi, pi):
+    """(free, free) + one binding of each other kind, rotating with the graph and the shape"""
+    k = gi * 7 + pi * 3
+    a, b = EX_ENDS[k % 4], EX_ENDS[(k // 4) % 4]
+    return [[None, None], [a, None], [None, b], [a, b if (k // 16) % 3 else a]]
+
+
+def gen_exhaustive(rng, block):
+    return {"ex": block, "style": block % 2}
 
 
 def gen_case(rng, tier, i):
-    if tier == "thorough" and i % 3 == 0:
-        return gen_exhaustive(rng, i // 3)
+    if tier == "thorough" and i < EX_BLOCKS:
+        return gen_exhaustive(rng, i)
     nodes, preds, T = gen_graph(rng)
     dmax = 4 if tier == "quick" else 6
     used = {x for t in T for x in (t[0], t[2])}
-    if rng.random() < 0.15:
-        path = gen_nullable_seq(rng, preds)
+    nullable = rng.random() < 0.15
+    for attempt in range(30):
+        if nullable:
+            path = gen_nullable_seq(rng, preds)
+        else:
+            path = gen_path(rng, rng.randint(2, dmax if attempt < 20 else 3), preds if rng.random() < 0.85 else list(PRED))
+            if path[0] in "in" and rng.random() < 0.7:
+                path = ["m", rng.choice("?*+"), path]
+        if cheap(path, T):
+            break
+    else:
+        path = ["m", "*", ["i", preds[0]]]
+    if nullable:
         absent = [x for x in NODE if x not in used]
         s, o = [rng.choice(absent) if absent and rng.random() < 0.6 else pick_end(rng, nodes, used) for _ in range(2)]
     else:
-        path = gen_path(rng, rng.randint(2, dmax), preds if rng.random() < 0.85 else list(PRED))
-        if path[0] in "in" and rng.random() < 0.7:
-            path = ["m", rng.choice("?*+"), path]
         s, o = pick_end(rng, nodes, used), pick_end(rng, nodes, used)
     if rng.random() < 0.15:
         o = s
@@ -394,7 +503,7 @@ def gen_case(rng, tier, i):
     if r < 0.5:
         routes += ["ds_union", "ds_default", "ds_named"]
     if i % 2 == 0:
-        routes += ["sparql_const", "sparql_values"]
+        routes += ["sparql_const", "sparql_values", "sparql_tree"]
     return {"triples": T, "path": path, "ends": ends, "routes": routes, "style": rng.randint(0, 1)}
 
 
@@ -413,7 +522,8 @@ def _graphs(case):
     full = sorted(set(T))
     dflt = sorted({tuple(t[:3]) for t in case["triples"] if t[3] in (0, 2)})
     named = sorted({tuple(t[:3]) for t in case["triples"] if t[3] in (1, 2)})
-    return [full, dflt, named]
+    # the aggregate iterates its members one after the other: a triple held by both is met twice
+    return [full, dflt, named, dflt + named]
 
 
 def _applicable(route, case, s, o, parts):
@@ -424,6 +534,8 @@ def _applicable(route, case, s, o, parts):
             return False
         if any(x in NO_SPARQL_TERM for x in (s, o) if x is not None):
             return False
+    if route == "sparql_tree" and "sparql_const" not in case["routes"]:
+        return False
     if route == "sparql_values":
         used = {x for t in parts[FULL] for x in (t[0], t[2])}
         if (s is None and o is None) or any(x not in used for x in (s, o) if x is not None):
@@ -534,7 +646,60 @@ def _plan(case):
     return parts, plan
 
 
+def _ex_items(case):
+    """(graph index, shape index) of the block, in order"""
+    b = case["ex"]
+    return [(gi, pi) for gi in range(b * EX_BLOCK, (b + 1) * EX_BLOCK) for pi in range(len(EX_PATHS))]
+
+
+def _ex_case(gi, pi, style=0):
+    """the ordinary case equivalent to one (graph, shape) of a block — used for replay / shrinking"""
+    return {"triples": [[*t, 0] for t in ex_graph(gi)], "path": EX_PATHS[pi], "ends": ex_bindings(gi, pi),
+            "routes": ["triples"], "style": style}
+
+
+def _run_ex(case):
+    obs, viol = [], []
+    stats = {"ex_blocks": 1, "ex_graphs": EX_BLOCK, "ex_evaluations": 0}
+    style = case.get("style", 0)
+    paths = [to_rdflib(a, style) for a in EX_PATHS]
+    closures = [is_closure(a) for a in EX_PATHS]
+    g, cur = None, None
+    for gi, pi in _ex_items(case):
+        if gi != cur:
+            cur, T = gi, ex_graph(gi)
+            g = Graph()
+            for s, p, o in T:
+                g.add((TERM[s], TERM[p], TERM[o]))
+        to_model = pi == gi % len(EX_PATHS)
+        for s, o in ex_bindings(gi, pi):
+            S, O = (None if s is None else TERM[s]), (None if o is None else TERM[o])
+            stats["ex_evaluations"] += 1
+            try:
+                got = [(REV[a], REV[b]) for a, _p, b in g.triples((S, paths[pi], O))]
+            except core.CaseTimeout:
+                raise
+            except Exception as e:
+                if to_model:
+                    obs.append("ERR:" + _err(e))
+                if len(viol) < 5:
+                    viol.append(f"raise: route triples path {EX_PATHS[pi]} ends ({s},{o}) on {T} raised {type(e).__name__}")
+                continue
+            if to_model:
+                obs.append(_line(got, closures[pi]))
+            want = expected(EX_PATHS[pi], T, s, o)
+            gs = set(got)
+            if gs != want and len(viol) < 5:
+                viol.append(f"relation: route triples path {EX_PATHS[pi]} ends ({s},{o}) on {T}: missing "
+                            f"{sorted(want - gs)} extra {sorted(gs - want)}")
+            elif closures[pi] and len(got) != len(gs) and len(viol) < 5:
+                viol.append(f"dup: route triples closure path {EX_PATHS[pi]} ends ({s},{o}) on {T} yields duplicates: {sorted(got)}")
+    return {"obs": obs, "viol": viol, "nontrivial": True, "key": "ex:%d" % case["ex"], "stats": stats}
+
+
 def run_impl(case):
+    if "ex" in case:
+        return _run_ex(case)
     parts, plan = _plan(case)
     ast = case["path"]
     closure = is_closure(ast)
@@ -551,7 +716,14 @@ def run_impl(case):
         viol.append(f"raise: constructing the path {ast} raised {type(e).__name__}: {e}")
         return {"obs": ["ERR:" + _err(e)] * len(plan), "viol": viol, "nontrivial": False, "key": "construct", "stats": stats}
     nontrivial = False
+    const_line = {}
     for s, o, route in plan:
+        if route == "sparql_tree":
+            # same observation as sparql_const; the model side gets rdflib's own parse tree (model_lines) and applies
+            # the Lean model of translatePath to it
+            obs.append(const_line.get((s, o), "ERR:Other"))
+            stats["route_sparql_tree"] = stats.get("route_sparql_tree", 0) + 1
+            continue
         T = parts[ROUTE_GRAPH[route]]
         want = expected(ast, T, s, o)
         stats["route_" + route] = stats.get("route_" + route, 0) + 1
@@ -569,10 +741,14 @@ def run_impl(case):
             raise
         except Exception as e:
             obs.append("ERR:" + _err(e))
+            if route == "sparql_const":
+                const_line[(s, o)] = obs[-1]
             stats["raised"] = stats.get("raised", 0) + 1
             viol.append(f"raise: route {route} path {ast} ends ({s},{o}) raised {type(e).__name__}: {str(e)[:120]}")
             continue
         obs.append(_line(got, closure))
+        if route == "sparql_const":
+            const_line[(s, o)] = obs[-1]
         gs = set(got)
         if gs != want:
             viol.append(f"relation: route {route} path {ast} ends ({s},{o}) on {T}: missing {sorted(want - gs)} "
@@ -595,6 +771,16 @@ def _w(x):
 
 
 def model_lines(case):
+    if "ex" in case:
+        lines = []
+        b = case["ex"]
+        for gi in range(b * EX_BLOCK, (b + 1) * EX_BLOCK):
+            pi = gi % len(EX_PATHS)
+            lines.append("graph " + " ".join("%d,%d,%d" % t for t in ex_graph(gi)))
+            toks = " ".join(path_tokens(EX_PATHS[pi]))
+            for s, o in ex_bindings(gi, pi):
+                lines.append(f"eval {_w(s)} {_w(o)} {toks}")
+        return lines
     parts = _graphs(case)
     toks = " ".join(path_tokens(case["path"]))
     lines = []
@@ -602,15 +788,39 @@ def model_lines(case):
         lines.append("graph " + " ".join("%d,%d,%d" % t for t in T))
         for s, o in case["ends"]:
             lines.append(f"eval {_w(s)} {_w(o)} {toks}")
+    if "sparql_tree" in case["routes"] and not has_empty_alt(case["path"]):
+        try:
+            stoks = " ".join(parser_tree_tokens(case["path"], case.get("style", 0)))
+        except Exception as e:  # the parser rejects / mangles the text: shows as a divergence on this route
+            stoks = "unparsed " + type(e).__name__
+        lines.append("graph " + " ".join("%d,%d,%d" % t for t in parts[FULL]))
+        for s, o in case["ends"]:
+            lines.append(f"evalsyn {_w(s)} {_w(o)} {stoks}")
     return lines
 
 
+def _dedup_line(line):
+    flag, body = line.split("|", 1)
+    ps = sorted({tuple(map(int, w.split(","))) for w in body.split()})
+    return flag + "|" + " ".join("%d,%d" % p for p in ps)
+
+
 def select_model_obs(case, out):
+    if "ex" in case:
+        res, k = [], 0
+        b = case["ex"]
+        for gi in range(b * EX_BLOCK, (b + 1) * EX_BLOCK):
+            pi = gi % len(EX_PATHS)
+            k += 1
+            for _ in range(4):
+                res.append(out[k] if is_closure(EX_PATHS[pi]) or "|" not in out[k] else _dedup_line(out[k]))
+                k += 1
+        return res
     parts, plan = _plan(case)
     n = len(case["ends"])
     closure = is_closure(case["path"])
     idx = {}
-    for gi in range(3):
+    for gi in range(4):
         for bi, (s, o) in enumerate(case["ends"]):
             idx[(gi, bi)] = out[gi * (n + 1) + 1 + bi]
     res = []
@@ -618,11 +828,12 @@ def select_model_obs(case, out):
     for bi, (s, o) in enumerate(case["ends"]):
         pos.setdefault((s, o), bi)
     for s, o, route in plan:
-        line = idx[(ROUTE_GRAPH[route], pos[(s, o)])]
+        if route == "sparql_tree":
+            line = out[4 * (n + 1) + 1 + pos[(s, o)]]
+        else:
+            line = idx[(ROUTE_GRAPH[route], pos[(s, o)])]
         if not closure and "|" in line:
-            flag, body = line.split("|", 1)
-            ps = sorted({tuple(map(int, w.split(","))) for w in body.split()})
-            line = flag + "|" + " ".join("%d,%d" % p for p in ps)
+            line = _dedup_line(line)
         res.append(line)
     return res
 
@@ -658,6 +869,17 @@ def _simpler_paths(ast):
 
 
 def shrink(case):
+    if "ex" in case:
+        # locate the failing (graph, shape) pairs of the block and continue with ordinary cases
+        n = 0
+        for gi, pi in _ex_items(case):
+            c = _ex_case(gi, pi, case.get("style", 0))
+            if run_impl(c)["viol"]:
+                n += 1
+                yield c
+                if n >= 40:
+                    return
+        return
     if len(case["routes"]) > 1:
         for r in case["routes"]:
             yield {**case, "routes": [r]}
@@ -674,4 +896,41 @@ def shrink(case):
             yield {**case, "triples": T[:i] + [[t[0], t[1], t[2], 0]] + T[i + 1:]}
 
 
-MATCHERS = {}
+def _viol(result, tag, route=None):
+    return any(v.startswith(tag + ":") and (route is None or ("route " + route) in v) for v in result["viol"])
+
+
+def _has(ast, pred):
+    if pred(ast):
+        return True
+    k = ast[0]
+    if k == "v":
+        return _has(ast[1], pred)
+    if k == "m":
+        return _has(ast[2], pred)
+    if k in "sa":
+        return any(_has(x, pred) for x in ast[1])
+    return False
+
+
+def _bound(case):
+    return [x for e in case.get("ends", []) for x in e if x is not None]
+
+
+# Matchers of the (all fixed) findings: narrow predicates over a shrunk case and its result.  They are only
+# consulted for `known` entries; they are kept so that an entry can be switched back to `known` if a repair is
+# ever reverted upstream.
+MATCHERS = {
+    "mul_falsy_end": lambda c, r: _viol(r, "relation") and _has(c["path"], lambda a: a[0] == "m")
+    and any(x in FALSY for x in _bound(c)) and not _has(c["path"], lambda a: a[0] == "s"),
+    "mul_zero_pair_twice": lambda c, r: _viol(r, "dup") and "agg" not in c["routes"] and c["path"][0] == "m"
+    and c["path"][1] in "?*" and bool(_bound(c)),
+    "seq_direction_falsy": lambda c, r: _viol(r, "relation") and _has(c["path"], lambda a: a[0] == "s" and len(a[1]) == 2)
+    and any(e[0] is None and e[1] in FALSY for e in c["ends"]),
+    "seq_bw_forward_scan": lambda c, r: _viol(r, "relation") and _has(c["path"], lambda a: a[0] == "s" and len(a[1]) >= 3)
+    and any(e[0] is None and e[1] is not None for e in c["ends"]),
+    "neg_inverse_member": lambda c, r: _viol(r, "relation") and _has(c["path"], lambda a: a[0] == "n" and bool(a[2])),
+    "sparql_nps_inverse_raises": lambda c, r: _viol(r, "raise", "sparql") and _has(c["path"], lambda a: a[0] == "n" and bool(a[2])),
+    "sparql_nps_empty_raises": lambda c, r: _viol(r, "raise", "sparql") and _has(c["path"], lambda a: a[0] == "n" and not a[1] and not a[2]),
+    "aggregate_path_per_member": lambda c, r: c["routes"] == ["agg"] and (_viol(r, "dup", "agg") or _viol(r, "raise", "agg")),
+}
